@@ -75,8 +75,23 @@ func isIntTerm(t *Term) bool {
 	return t.V != nil && isNamed(t.V.Type(), mathPath, "Int")
 }
 
-// dirOf computes the rounding direction of a term.
-func dirOf(t *Term) Dir {
+// isExcursionRoot: a Dec→Int conversion.
+func isExcursionRoot(t *Term) bool {
+	switch mathName(t) {
+	case "LegacyDec.TruncateInt", "LegacyDec.RoundInt", "LegacyDec.TruncateInt64", "LegacyDec.RoundInt64":
+		return true
+	}
+	return false
+}
+
+// dirOf computes the rounding direction of a term. An integer produced by an
+// inner, completed excursion is a given quantity (EXACT) for the outer one.
+func dirOf(t *Term) Dir { return dirOfAt(t, true) }
+
+func dirOfAt(t *Term, root bool) Dir {
+	if !root && isExcursionRoot(t) {
+		return DExact
+	}
 	switch t.Op {
 	case "phi":
 		d := DExact
@@ -89,9 +104,9 @@ func dirOf(t *Term) Dir {
 				continue
 			}
 			if first {
-				d, first = dirOf(a), false
+				d, first = dirOfAt(a, root), false
 			} else {
-				d = joinDir(d, dirOf(a))
+				d = joinDir(d, dirOfAt(a, root))
 			}
 		}
 		return d
@@ -102,7 +117,7 @@ func dirOf(t *Term) Dir {
 	n := mathName(t)
 	arg := func(i int) Dir {
 		if i < len(t.Args) {
-			return dirOf(t.Args[i])
+			return dirOfAt(t.Args[i], false)
 		}
 		return DExact
 	}
@@ -180,7 +195,7 @@ func dirOf(t *Term) Dir {
 	if strings.HasPrefix(t.Name, sdkPath+".Coin.") || strings.HasPrefix(t.Name, sdkPath+".NewCoin") || strings.HasPrefix(t.Name, sdkPath+".Coins.") {
 		d := DExact
 		for _, a := range t.Args {
-			d = joinDir(d, dirOf(a))
+			d = joinDir(d, dirOfAt(a, false))
 		}
 		return d
 	}
@@ -189,7 +204,12 @@ func dirOf(t *Term) Dir {
 
 // skeleton renders the operator structure of a money excursion with the leaves abstracted:
 // AMT (a coin amount), PRICE (a price), other leaves as '·'.
-func skeleton(t *Term) string {
+func skeleton(t *Term) string { return skeletonAt(t, true) }
+
+func skeletonAt(t *Term, root bool) string {
+	if !root && isExcursionRoot(t) {
+		return "QTY" // an integer produced by an inner, completed excursion
+	}
 	switch t.Op {
 	case "phi":
 		var parts []string
@@ -197,7 +217,7 @@ func skeleton(t *Term) string {
 			if a.Op == "const" && a.Name == "nil" {
 				continue
 			}
-			parts = append(parts, skeleton(a))
+			parts = append(parts, skeletonAt(a, root))
 		}
 		if len(parts) == 1 {
 			return parts[0]
@@ -207,7 +227,7 @@ func skeleton(t *Term) string {
 		if n := mathName(t); n != "" {
 			var parts []string
 			for _, a := range t.Args {
-				parts = append(parts, skeleton(a))
+				parts = append(parts, skeletonAt(a, false))
 			}
 			n = strings.TrimPrefix(strings.TrimPrefix(n, "LegacyDec."), "Int.")
 			return n + "(" + strings.Join(parts, ",") + ")"
@@ -227,4 +247,29 @@ func skeleton(t *Term) string {
 		}
 	}
 	return "·"
+}
+
+// mathLeaves: the operands of the arithmetic (descent stops at anything that is not a cosmossdk.io/math call or a phi,
+// and at inner completed excursions).
+func mathLeaves(t *Term) []*Term {
+	var out []*Term
+	var rec func(t *Term, root bool)
+	rec = func(t *Term, root bool) {
+		switch {
+		case !root && isExcursionRoot(t):
+			out = append(out, t)
+		case t.Op == "phi":
+			for _, a := range t.Args {
+				rec(a, root)
+			}
+		case mathName(t) != "":
+			for _, a := range t.Args {
+				rec(a, false)
+			}
+		default:
+			out = append(out, t)
+		}
+	}
+	rec(t, true)
+	return out
 }
